@@ -214,6 +214,42 @@ def p_cmp(Q, I):
     return Q.from_(t).select(t.a).where(t.a == I), "paren", None
 
 
+def _mk_cmp(name, op):
+    def pos(Q, I):
+        t = _t()
+        return Q.from_(t).select(t.a).where(op(t.a, I)), "paren", None
+
+    pos.__name__ = "p_" + name
+    return pos
+
+
+# every comparison operator / named comparison method with the query as the right operand, and the reflected forms
+p_cmp_ne = _mk_cmp("cmp_ne", lambda a, I: a != I)
+p_cmp_lt = _mk_cmp("cmp_lt", lambda a, I: a < I)
+p_cmp_le = _mk_cmp("cmp_le", lambda a, I: a <= I)
+p_cmp_gt = _mk_cmp("cmp_gt", lambda a, I: a > I)
+p_cmp_ge = _mk_cmp("cmp_ge", lambda a, I: a >= I)
+p_cmp_m_lte = _mk_cmp("cmp_m_lte", lambda a, I: a.lte(I))
+p_cmp_m_gte = _mk_cmp("cmp_m_gte", lambda a, I: a.gte(I))
+p_cmp_m_eq = _mk_cmp("cmp_m_eq", lambda a, I: a.eq(I))
+p_cmp_m_ne = _mk_cmp("cmp_m_ne", lambda a, I: a.ne(I))
+p_arith_sub = _mk_cmp("arith_sub", lambda a, I: (a - I) > 0)
+p_arith_rdiv = _mk_cmp("arith_rdiv", lambda a, I: (1 / (a * I)) > 0)
+p_between_lo = _mk_cmp("between_lo", lambda a, I: a.between(I, 9))
+p_like_pat = _mk_cmp("like_pat", lambda a, I: a.like(I))
+
+
+def p_setop_same_twice(Q, I):
+    # the embedded query is an operand twice (the same object): every occurrence is rendered, and rendered the same
+    t = _t()
+    return Q.from_(t).select(t.a).except_of(I).union(I), "setop", None
+
+
+def p_setop_same_twice_intersect(Q, I):
+    t = _t()
+    return Q.from_(t).select(t.a).union(I).intersect(I).union_all(I), "setop", None
+
+
 def p_select_item(Q, I):
     t = _t()
     return Q.from_(t).select(t.a, I), "paren", None
@@ -306,7 +342,9 @@ def p_nested_from(Q, I):
 
 POS = {f.__name__[2:]: f for f in (p_from, p_from_auto, p_join, p_in, p_in_aliased, p_cmp_aliased, p_func_arg_aliased, p_select_in_aliased, p_select_cmp_right_aliased, p_select_cmp_left_aliased, p_select_arith_right_aliased, p_join_on_value, p_not_in_aliased, p_and_or_in_aliased, p_select_case_in_aliased, p_notin, p_not_in, p_and_in, p_cmp, p_select_item,
                                    p_select_item_aliased, p_cte, p_setop_right, p_setop_base, p_setop_chain_right, p_setop_chain_right_all, p_setop_chain_three, p_setop_chain_mid, p_as_select, p_update_from,
-                                   p_delete_in, p_insert_value, p_func_arg, p_case_then, p_having, p_join_on, p_nested_from)}
+                                   p_delete_in, p_insert_value, p_func_arg, p_case_then, p_having, p_join_on, p_nested_from,
+                                   p_cmp_ne, p_cmp_lt, p_cmp_le, p_cmp_gt, p_cmp_ge, p_cmp_m_lte, p_cmp_m_gte, p_cmp_m_eq, p_cmp_m_ne, p_arith_sub, p_arith_rdiv,
+                                   p_between_lo, p_like_pat, p_setop_same_twice, p_setop_same_twice_intersect)}
 
 
 def chunks(tier, seed):
@@ -406,6 +444,11 @@ def run_case(case):
             res.violate("C10|%s|text-differs|%s" % (pos, cl),
                         "the text emitted for the embedded query is not its stand-alone rendering (diverges in its %s clause)" % cl,
                         dialect=d, position=pos, inner=ip, standalone=s, outer=o, param=param, diverges_after=s_n[max(0, lo - 30):lo])
+            return res
+        want_n = {"setop_same_twice": 2, "setop_same_twice_intersect": 3}.get(pos)
+        if want_n is not None and o_n.count(frag) != want_n and not (param and d == "postgresql"):
+            res.violate("C10|%s|occurrences" % pos, "the query is an operand %d times but its text occurs %d times" % (want_n, o_n.count(frag)),
+                        dialect=d, position=pos, inner=ip, standalone=s, outer=o, param=param)
             return res
         rest = o_n[idx + len(frag):]
         try:
